@@ -68,6 +68,11 @@ def gen_workload(rng, big=False, devel=False, same_prefix=False, extended=True, 
         else:
             a, b = None, rng.choice(vs)  # added in the second package
         files.append({'path': path, 'v1': None if a is None else '%s_v%d' % (fam, a), 'v2': None if b is None else '%s_v%d' % (fam, b)})
+    # every package has at least one binary (done before the link step: a directory link mirrors what is in the directory)
+    if not any(f['v1'] for f in files):
+        files[0]['v1'] = files[0]['v2']
+    if not any(f['v2'] for f in files):
+        files[0]['v2'] = files[0]['v1']
     nodbg = extended and rng.chance(1, 3)
     if nodbg:
         # some binaries are shipped without debug info (symbol-only comparison; an error with --fail-no-dbg)
@@ -157,6 +162,12 @@ def materialise(wl, libs, root, order_rng=None):
             os.makedirs(os.path.dirname(p), exist_ok=True)
             shutil.copyfile(libs[f[key]], p)
             os.chmod(p, 0o755)
+        # the package on disk must be exactly what the workload (and therefore the reference model) says it is
+        disk = set()
+        for dp, dn, fn in os.walk(d, followlinks=True):
+            disk.update(os.path.relpath(os.path.join(dp, x), d) for x in fn)
+        if disk != set(f['path'] for f in wl['files'] if f[key]):
+            raise C.InfraError('package generator inconsistency: on disk %s, workload %s' % (sorted(disk), sorted(f['path'] for f in wl['files'] if f[key])))
         if wl['abignore'] in (side, 'both'):
             open(os.path.join(d, 'pkg.abignore'), 'wb').write(ABIGNORE)
         if wl['format'] == 'dir':
